@@ -10,6 +10,7 @@ import (
 	"sort"
 	"strconv"
 	"strings"
+	"sync"
 	"time"
 
 	"verif/core"
@@ -205,6 +206,10 @@ func runC02(r *core.Run) (bool, string) {
 		c02Judge(r, p, verdicts)
 	}
 	r.Set("verdict_by_atom_position", verdicts)
+	r.Set("atoms_rejected_for_an_unrelated_reason", maskedAtoms())
+	for _, m := range maskedAtoms() {
+		fmt.Println("C02 note: rejected for a reason unrelated to the atom —", m)
+	}
 	replayWitnesses(r, goose, "C02", tvOptions{PerPackage: true}, c02Failing)
 	r.Set("programs", len(res))
 	r.Set("disagreements_checked", r.GetCount("cases_compared"))
@@ -293,6 +298,15 @@ func judgeRejectedOrFaithful(r *core.Run, p *tvPkg, verdicts map[string]string, 
 			verdicts[key] = "rejected: " + why
 			r.Count("functions_rejected", 1)
 			r.Distinct(key + "/rejected")
+			// a rejection for a reason that has nothing to do with the atom (the host or the atom's scaffolding uses
+			// something unsupported) hides the construct the atom is about: such atoms are listed, so that the
+			// catalogue can be repaired (append(s, 1, 2) went unexamined this way until round 6)
+			if unrelatedRejection(atom, why) {
+				r.Count("functions_rejected_for_a_reason_unrelated_to_the_atom", 1)
+				maskedMu.Lock()
+				masked[atom+": "+why] = true
+				maskedMu.Unlock()
+			}
 			continue
 		}
 		// a declaration-level atom may be rejected at one of its helper declarations
@@ -478,4 +492,38 @@ func stripVariant(name string) string {
 		return name[:i]
 	}
 	return name
+}
+
+var (
+	maskedMu sync.Mutex
+	masked   = map[string]bool{}
+)
+
+// unrelatedRejection: messages that come from scaffolding rather than from the construct an atom exercises.
+func unrelatedRejection(atom, why string) bool {
+	a := strings.TrimPrefix(atom, "o_")
+	switch {
+	case strings.Contains(why, "is not assignable"):
+		return !strings.Contains(a, "assign") && !strings.HasPrefix(a, "forinit") && !strings.HasPrefix(a, "forpost")
+	case strings.Contains(why, "non-var declaration for type"):
+		return a != "typelocal"
+	case strings.Contains(why, "literal with kind INT"):
+		// (the declaration forms of the numeric family need a literal of the type)
+		return !strings.HasSuffix(a, "_field") && !strings.HasSuffix(a, "_loopvar") && !strings.HasSuffix(a, "_namedtype")
+	case strings.Contains(why, "index update to unexpected target"):
+		return !strings.Contains(a, "index") && !strings.Contains(a, "array") && !strings.Contains(a, "named_")
+	}
+	return false
+}
+
+// maskedAtoms lists the atoms whose rejection was classified as unrelated (evidence).
+func maskedAtoms() []string {
+	maskedMu.Lock()
+	defer maskedMu.Unlock()
+	var out []string
+	for k := range masked {
+		out = append(out, k)
+	}
+	sort.Strings(out)
+	return out
 }
